@@ -142,4 +142,59 @@ theorem loop_tx_abort (t : Tx) (ps : List Proposal) (flag : Bool) :
     · simpa [dropFlag] using ih flag
     · simpa [dropFlag] using ih flag
 
+/-! ## the split of a function at its loop agrees with the whole-function skeleton (for EVERY abstract state) -/
+
+/-- one pass of a loop: the iteration's trace, followed - where it hands over - by the statements after the loop -/
+def onePass (body after : V2G → List Tok) (g : V2G) : List Tok :=
+  let tr := proj (body g)
+  if tr.getLast? = some (.misc "next") then tr.dropLast ++ proj (after g) else tr
+
+set_option maxHeartbeats 2000000 in
+theorem split_tx_commit (g : V2G)
+    (h : g.n "transaction.Status.Phases.Commit.State" = g.n "configapi.TransactionCommitPhase_COMMITTING") :
+    proj (v2sk_tx_commit g) =
+      .set "allCommitted" "true" :: onePass v2sk_tx_commit_loop1_body v2sk_tx_commit_loop1_after g := by
+  unfold v2sk_tx_commit v2sk_tx_commit_loop1_body v2sk_tx_commit_loop1_after onePass
+  simp only [h, beq_self_eq_true, if_true]
+  cases g.b "err@r.proposals.Get#1" <;> cases g.b "errors.IsNotFound(err)@r.proposals.Get#1" <;>
+    cases g.b "proposal.Status.Phases.Commit != nil" <;> cases g.b "err@r.updateProposalStatus#1" <;>
+    cases g.b "allCommitted" <;> cases g.b "err@r.updateTransactionStatus#1" <;>
+    cases hs : (g.n "proposal.Status.Phases.Commit.State" == g.n "configapi.ProposalCommitPhase_COMMITTING") <;>
+    (try simp only [hs]) <;> simp [proj, plumbing]
+
+set_option maxHeartbeats 2000000 in
+theorem split_tx_validate (g : V2G)
+    (h : g.n "transaction.Status.Phases.Validate.State" = g.n "configapi.TransactionValidatePhase_VALIDATING") :
+    proj (v2sk_tx_validate g) =
+      .set "allValidated" "true" :: onePass v2sk_tx_validate_loop1_body v2sk_tx_validate_loop1_after g := by
+  unfold v2sk_tx_validate v2sk_tx_validate_loop1_body v2sk_tx_validate_loop1_after onePass
+  simp only [h, beq_self_eq_true, if_true]
+  cases g.b "err@r.proposals.Get#1" <;> cases g.b "errors.IsNotFound(err)@r.proposals.Get#1" <;> cases g.b "proposal.Status.Phases.Validate != nil" <;> cases g.b "err@r.updateProposalStatus#1" <;> cases g.b "allValidated" <;> cases g.b "err@r.updateTransactionStatus#1" <;> cases g.b "err@r.updateTransactionStatus#2" <;>
+    cases hs : (g.n "proposal.Status.Phases.Validate.State" == g.n "configapi.ProposalValidatePhase_VALIDATING") <;>
+    cases hf : (g.n "proposal.Status.Phases.Validate.State" == g.n "configapi.ProposalValidatePhase_FAILED") <;>
+    (try simp only [hs, hf]) <;> simp [proj, plumbing]
+
+set_option maxHeartbeats 2000000 in
+theorem split_tx_apply (g : V2G)
+    (h : g.n "transaction.Status.Phases.Apply.State" = g.n "configapi.TransactionApplyPhase_APPLYING") :
+    proj (v2sk_tx_apply g) =
+      .set "allApplied" "true" :: onePass v2sk_tx_apply_loop1_body v2sk_tx_apply_loop1_after g := by
+  unfold v2sk_tx_apply v2sk_tx_apply_loop1_body v2sk_tx_apply_loop1_after onePass
+  simp only [h, beq_self_eq_true, if_true]
+  cases g.b "err@r.proposals.Get#1" <;> cases g.b "errors.IsNotFound(err)@r.proposals.Get#1" <;> cases g.b "proposal.Status.Phases.Apply != nil" <;> cases g.b "err@r.updateProposalStatus#1" <;> cases g.b "allApplied" <;> cases g.b "err@r.updateTransactionStatus#1" <;> cases g.b "err@r.updateTransactionStatus#2" <;>
+    cases hs : (g.n "proposal.Status.Phases.Apply.State" == g.n "configapi.ProposalApplyPhase_APPLYING") <;>
+    cases hf : (g.n "proposal.Status.Phases.Apply.State" == g.n "configapi.ProposalApplyPhase_FAILED") <;>
+    (try simp only [hs, hf]) <;> simp [proj, plumbing]
+
+set_option maxHeartbeats 2000000 in
+theorem split_tx_abort (g : V2G)
+    (h : g.n "transaction.Status.Phases.Abort.State" = g.n "configapi.TransactionAbortPhase_ABORTING") :
+    proj (v2sk_tx_abort g) =
+      .set "allAborted" "true" :: onePass v2sk_tx_abort_loop1_body v2sk_tx_abort_loop1_after g := by
+  unfold v2sk_tx_abort v2sk_tx_abort_loop1_body v2sk_tx_abort_loop1_after onePass
+  simp only [h, beq_self_eq_true, if_true]
+  cases g.b "err@r.proposals.Get#1" <;> cases g.b "errors.IsNotFound(err)@r.proposals.Get#1" <;> cases g.b "proposal.Status.Phases.Abort != nil" <;> cases g.b "err@r.updateProposalStatus#1" <;> cases g.b "allAborted" <;> cases g.b "err@r.updateTransactionStatus#1" <;>
+    cases hs : (g.n "proposal.Status.Phases.Abort.State" == g.n "configapi.ProposalAbortPhase_ABORTING") <;>
+    (try simp only [hs]) <;> simp [proj, plumbing]
+
 end OnosVerif.V2.Skel
